@@ -82,6 +82,12 @@ LABELS = ["x", "Y", "z_{1}", "café", "a b", "n\nl", "p cnf 1 1", "%",
 
 def _gen_formula(rng):
     n, clauses = cnfref.random_cnf(rng, max_vars=12, max_clauses=25)
+    if rng.random() < 0.06:
+        # files longer than every io buffer involved, 3-digit literals
+        n = rng.choice([100, 150, 1000])
+        clauses = [[rng.choice([1, -1]) * rng.randint(1, n)
+                    for _ in range(rng.randint(0, 5))]
+                   for _ in range(rng.choice([100, 128, 300]))]
     f = {"n": n, "clauses": clauses,
          "description": rng.choice(DESCRIPTIONS),
          "header": {}, "groups": []}
